@@ -227,3 +227,32 @@ def c_highdim(ctx, case):
     ctx.close(got, want, "log_likelihood (many features)", rtol=1e-10, atol=1e-9)
     ctx.close(np.asarray(g.log_weighted_likelihood(X)), want_lw, "log_weighted_likelihood (many features)", rtol=1e-10, atol=1e-9)
     ctx.close(g.acc_stats(X).log_likelihood, want.sum(), "stats.log_likelihood (many features)", rtol=1e-10, atol=1e-9 * len(X))
+
+
+def g_rows(draw):
+    c = gen.big_rows_case(draw)
+    c["floor_rel"] = gen.choice(draw, [1e-12, 1e-3])
+    return c
+
+
+@REG.obligation("many_rows", g_rows, quick=12, thorough=200, shard_size=4)
+def c_rows(ctx, case):
+    """Thousands of rows in one call (1e3 .. 7e4, so that any internal batching is exercised): the batch, a Dask
+    array with a few large chunks and the definition agree row by row, and the statistics' total is their sum."""
+    X, cent = gen.big_rows(case)
+    k, F = cent.shape
+    r = np.random.default_rng(int(case["data_seed"]) + 1)
+    var = float(case["scale"]) ** 2 * np.exp(r.uniform(-1, 1, (k, F)))
+    w = r.dirichlet(np.full(k, 3.0))
+    p = {"C": k, "F": F, "weights": w, "means": cent, "variances": var, "floors": float(case["floor_rel"]) * var.min()}
+    g = sut.make_gmm(p)
+    want = ref.gmm_logpdf(X, w, cent, var)
+    got = np.asarray(g.log_likelihood(X))
+    ctx.note(max(case["chunks"]) > 4096, "n>%d" % (10 ** int(np.log10(X.shape[0]))))
+    ctx.check(got.shape == (X.shape[0],), "log_likelihood shape %s" % (got.shape,), "shape")
+    ctx.close(got, want, "log_likelihood of many rows", rtol=1e-10, atol=1e-9)
+    dl = np.asarray(g.log_likelihood(sut.dask_rows(X, case["chunks"])).compute())
+    ctx.close(dl, got, "dask vs numpy ll (many rows)", rtol=1e-12, atol=1e-12)
+    st = g.acc_stats(X)
+    ctx.close(st.log_likelihood, want.sum(), "stats.log_likelihood (many rows)", rtol=1e-10, atol=1e-9 * len(X))
+    ctx.check(int(st.t) == X.shape[0], "stats.t is %r for %d rows" % (st.t, X.shape[0]), "t")
